@@ -230,12 +230,12 @@ let () =
               if not (reason_text_ok v) then ok := false end
           | None -> ()) (split_ws impl_line);
       Printf.printf "%s | %s\n" impl_line (if !ok then "oracle=ok" else "oracle=fail@reason-phrase-not-printable")
-    | mode :: rest when mode = "D" || mode = "S" ->
+    | mode :: rest when mode = "D" || mode = "S" || mode = "I" ->
       let (rest, ann) = (let rec cut acc = function
           | "@c09" :: a -> (List.rev acc, Some a) | x :: r -> cut (x :: acc) r | [] -> (List.rev acc, None) in cut [] rest) in
       let (small, cache, script) = (match mode, rest with
           | "D", [s; c; sc] -> (s, c, sc)
-          | "S", [s; c; _; _; sc] -> (s, c, sc)
+          | ("S" | "I"), [s; c; _; _; sc] -> (s, c, sc)
           | _ -> failwith "bad case") in
       let data = List.map n_of_int (expand_bytes_ints script) in
       let cache_dir = (match cache with "-" -> None | "ok" -> Some true | _ -> Some false) in
@@ -248,9 +248,14 @@ let () =
       let wire = ints_of_bytes out.lo_conn.c_wire in
       let wstr = if List.length wire <= 131072 then "x" ^ String.concat "" (List.map (Printf.sprintf "%02x") wire)
         else Printf.sprintf "%d:h%016Lx" (List.length wire) (fnv64_ints wire) in
-      Printf.printf "log=[%s] wire=%s files=0%s | %s\n" log wstr
+      Printf.printf "log=[%s] wire=%s files=0%s%s | %s\n" log wstr
+        (if mode = "I" then " idle=0" else "")
         (if out.lo_out_of_fuel then " OUT-OF-FUEL" else "")
         (let v = oracle (List.map int_of_n data) impl_line in
+         (* mode I: no temp file may exist once every request sent so far has been answered, although the
+            connection is still open and idle *)
+         let v = if mode = "I" && v = "oracle=ok" && field "idle=" (split_ws impl_line) <> Some "0"
+           then "oracle=fail@temp-file-alive-after-its-request-was-answered" else v in
          match ann, v with
          | Some [s; m; l; decl; kind; bodytok], "oracle=ok" ->
            oracle_c09 s m (int_of_string l) (decl = "1") kind cache (digest_tok_ints (expand_bytes_ints bodytok)) impl_line
